@@ -285,7 +285,7 @@ seq_t dtw_distance(seq_t *s1, idx_t l1,
     if (window - 1 < 0) {
         l2 += window - 1;
     }
-    seq_t result = sqrt(dtw[length * i1 + l2 - skip]);
+    seq_t result = dtw[length * i1 + l2 - skip];
     // Deal with psi-relaxation in the last row
     if (settings->psi_1e != 0 || settings->psi_2e != 0) {
         if (settings->psi_2e != 0) {
@@ -295,15 +295,16 @@ seq_t dtw_distance(seq_t *s1, idx_t l1,
                 }
             }
         }
-        result = sqrt(psi_shortest);
+        result = psi_shortest;
     }
     free(dtw);
     // signal(SIGINT, SIG_DFL);  // not compatible with OMP
-    if (settings->max_dist !=0 && result > settings->max_dist) {
-        // DTWPruned keeps the last value larger than max_dist. Correct for this.
+    if (result > max_dist) {
+        // DTWPruned keeps the last value larger than max_dist. Correct for this. The test is
+        // against the bound in use (internal representation; infinite if there is none).
         result = INFINITY;
     }
-    return result;
+    return sqrt(result);
 }
 
 
@@ -532,7 +533,7 @@ seq_t dtw_distance_ndim(seq_t *s1, idx_t l1,
     if (window - 1 < 0) {
         l2 += window - 1;
     }
-    seq_t result = sqrt(dtw[length * i1 + l2 - skip]);
+    seq_t result = dtw[length * i1 + l2 - skip];
     // Deal with psi-relaxation in the last row
     if (settings->psi_1e != 0 || settings->psi_2e != 0) {
         if (settings->psi_2e != 0) {
@@ -542,15 +543,16 @@ seq_t dtw_distance_ndim(seq_t *s1, idx_t l1,
                 }
             }
         }
-        result = sqrt(psi_shortest);
+        result = psi_shortest;
     }
     free(dtw);
     // signal(SIGINT, SIG_DFL);  // not compatible with OMP
-    if (settings->max_dist !=0 && result > settings->max_dist) {
-        // DTWPruned keeps the last value larger than max_dist. Correct for this.
+    if (result > max_dist) {
+        // DTWPruned keeps the last value larger than max_dist. Correct for this. The test is
+        // against the bound in use (internal representation; infinite if there is none).
         result = INFINITY;
     }
-    return result;
+    return sqrt(result);
 }
 
 
@@ -776,8 +778,9 @@ seq_t dtw_distance_euclidean(seq_t *s1, idx_t l1,
     }
     free(dtw);
     // signal(SIGINT, SIG_DFL);  // not compatible with OMP
-    if (settings->max_dist !=0 && result > settings->max_dist) {
-        // DTWPruned keeps the last value larger than max_dist. Correct for this.
+    if (result > max_dist) {
+        // DTWPruned keeps the last value larger than max_dist. Correct for this. The test is
+        // against the bound in use (internal representation; infinite if there is none).
         result = INFINITY;
     }
     return result;
@@ -1015,8 +1018,9 @@ seq_t dtw_distance_ndim_euclidean(seq_t *s1, idx_t l1,
     }
     free(dtw);
     // signal(SIGINT, SIG_DFL);  // not compatible with OMP
-    if (settings->max_dist !=0 && result > settings->max_dist) {
-        // DTWPruned keeps the last value larger than max_dist. Correct for this.
+    if (result > max_dist) {
+        // DTWPruned keeps the last value larger than max_dist. Correct for this. The test is
+        // against the bound in use (internal representation; infinite if there is none).
         result = INFINITY;
     }
     return result;
